@@ -470,11 +470,12 @@ func (loader *Loader) resolveComponent(doc *T, ref string, path *url.URL, resolv
 	}
 	var cursor any
 	if cursor, err = drill(componentDoc); err != nil {
-		if path == nil {
+		// the raw document is the one the reference leads to, not the one it is written in
+		if componentPath == nil {
 			return nil, nil, err
 		}
 		var err2 error
-		data, err2 := loader.readURL(path)
+		data, err2 := loader.readURL(componentPath)
 		if err2 != nil {
 			return nil, nil, err
 		}
